@@ -27,6 +27,7 @@ func init() {
 				"R8.1 map-order independence: in every library function, a map-range loop with a cross-key deletion/insertion on the ranged map has no loop-carried value and no other effect; no floating-point accumulator in any map-range loop",
 				"R8.2 (also: the kept set the size and the count are taken from depends on the set of input words only = C10 R10.2/R10.3 re-run) stored count: the integer stored into the result's count field is phi(0, acc+1) of a range loop over the dedupe map from which no mutation of that map is reachable; the increment is guarded only by pure conditions on the key (strings.Title(k) == k)",
 				"R8.3 ledger: the addends of WLRecipe.Entropy() are exactly entropySimple(Length, int(Size())) unguarded; float(Length) under {all-capitalisable, Capitalize==CSRandom}; log2(float(Length)) under {all-capitalisable, Capitalize==CSOne}; (float(Length)-1)*sepEnt with sepEnt = phi(0, second result of SeparatorFunc()) under SeparatorFunc != nil; no other addend, no other condition",
+				"R8.3 (also) the separator term of library-made separator functions: CharRecipe.Entropy() is the exact count over the builder's sets and the same on every call (= C07 and the C03 builder rules, borrowed)",
 				"R8.3b entropySimple(l,n) = float(l) * log2(float(n)); isAllCapitalizable() = (count == 0)",
 				"R8.4 purity of Entropy(): no shared write (EFF), separator function's string result unused",
 			},
@@ -57,6 +58,13 @@ func runC08(p *core.Program, r *core.Report) {
 
 	// R8.3
 	checkWLEntropyLedger(p, r, "R8.3")
+	// the separator term is what the separator function reports; for every function the library makes
+	// (presets, NewSFFunction) that is the character recipe's Entropy(), which is "identical on every
+	// call" only if the count and the alphabet builder are what C07/C03 say (= C07 and C03 builder re-run)
+	r.Borrow("R8.3", func() {
+		runC07(p, r)
+		checkAlphabetBuilder(p, r)
+	})
 
 	// R8.4
 	eff := core.GetEff(p)
